@@ -1,10 +1,11 @@
-\* exhaustive, typed mode: assembly 1, blocks 2-3, components 4-5, pool 6-8
-CONSTANTS N = 8  NOrig = 5  NLoc = 1  MaxLevel = 5  Typed = TRUE  MaxSet = 2  NBlk = 2  BlkGrid = FALSE
+\* exhaustive, typed mode: assembly 1, blocks 2-3, components 4-5, pool 6-8, depth 5
+CONSTANTS N = 8  NOrig = 5  NLoc = 1  MaxLevel = 5  Typed = TRUE  MaxSet = 2  NBlk = 2  BlkGrid = FALSE  NGrp = 0  Rx = FALSE  NAsm = 0  Deviant = FALSE  WithOwned = FALSE
 INIT Init
 NEXT Next
 CONSTRAINT Bound
 VIEW View
 INVARIANT TypeOK
+INVARIANT BrokenIsDead
 INVARIANT OneParentListedOnce
 INVARIANT NoDuplicates
 INVARIANT Acyclic
